@@ -129,7 +129,15 @@ func (r *Run) sha256Model(in Value) Value {
 		for i := range out {
 			out[i] = int64(d[i])
 		}
-		// keep concrete applications too: a symbolic input may equal this one
+		// keep concrete applications too: a symbolic input may equal this one (and relate it to the
+		// symbolic applications made earlier)
+		for _, prev := range r.crypto().sha {
+			if _, conc := concreteBytes(prev.in); conc {
+				continue
+			}
+			same := boolTerm(eqStr(s, prev.in))
+			r.assertTerm(tIff(same, eqCells([]Value(out), prev.out)))
+		}
 		r.crypto().sha = append(r.crypto().sha, shaApp{in: s, out: []Value(out)})
 		return out
 	}
